@@ -361,6 +361,8 @@ def check(prop, tier):
         for cfg in ln["configs"]:
             for s in range(shards):
                 jobs.append(Job(prop, ln, cfg, s, shards, tier, seed, rundir))
+    if os.environ.get("VERIF_ONLY_FUZZ") == "1":
+        jobs = []   # development aid for testing the fuzzing stage alone; never set by a registered command (floors then fail the run)
     # coverage-guided fuzzing stage (driver/gofuzz.py): the engine proposes failing inputs, each becomes one more job
     fuzz_events, fuzz_incon, fuzz_herr = {}, [], []
     fz = plan.get("fuzz")
